@@ -213,6 +213,19 @@ pub(crate) fn c09_div_variant() {
     }
 }
 
+#[cfg_attr(kani, kani::proof)]
+pub(crate) fn c09_canary() {
+    let addr: usize = vany();
+    let ir: u8 = vany();
+    let (flags, co, zo, no, iff, byte): (u8, bool, bool, bool, bool, u8) = (vany(), vany(), vany(), vany(), vany(), vany());
+    vassume(addr < 512 && in_cert(addr, ir));
+    let w = word_at(addr);
+    vassume(!is_first_fetch(w) && !is_second_fetch(w));
+    let (a2, _) = control_step(addr, ir, flags, co, zo, no, iff, byte);
+    // wrong on purpose: claims the rank decreases everywhere, also around the MUL/DIV back edges
+    vassert!(a2 < 512 && CERT_RANK[a2] < CERT_RANK[addr], "CANARY");
+}
+
 /// Native walker (certificate generation only; decides nothing): breadth-first search over the
 /// control space through `control_step`, i.e. through the real sequencer code.
 #[cfg(verif_replay)]
@@ -282,4 +295,4 @@ pub(crate) fn gen_c09_dump() {
 #[cfg(not(verif_replay))]
 pub(crate) fn gen_c09_dump() {}
 
-crate::replay_table!(verif_replay_c09; c09_step, c09_stuck, c09_init, c09_mul_variant, c09_div_variant, gen_c09_dump,);
+crate::replay_table!(verif_replay_c09; c09_step, c09_stuck, c09_init, c09_mul_variant, c09_div_variant, c09_canary, gen_c09_dump,);
